@@ -1,2 +1,3 @@
+pub mod expect;
 pub mod schema;
 pub mod value;
